@@ -135,6 +135,17 @@ def run_family(fam, tier):
     return probes
 
 
+def relevant(p, prop):
+    """probes tagged prop:Cxx speak for those properties only; C08 (nothing panics) additionally counts every panic"""
+    if prop == "C08":
+        # "every entry point returns Ok or Err for every input": only a panic (or a hang, which kills the run) contradicts it
+        return str(p.get("outcome", "")).startswith("panic:")
+    tags = [t for t in p.get("tags", []) if t.startswith("prop:")]
+    if not tags or not prop:
+        return True
+    return ("prop:" + prop) in tags or (prop == "C08" and str(p.get("outcome", "")).startswith("panic:"))
+
+
 def main():
     ap = argparse.ArgumentParser()
     ap.add_argument("--label")
@@ -142,6 +153,7 @@ def main():
     ap.add_argument("--tier", default="quick")
     ap.add_argument("--rerun")
     ap.add_argument("--sweep")
+    ap.add_argument("--prop", default="", help="count only probes that speak for this property (tags prop:Cxx; untagged probes always count)")
     a = ap.parse_args()
     sys.path.insert(0, os.path.dirname(os.path.abspath(__file__)))
     err = build()
@@ -189,7 +201,7 @@ def main():
                 return 0
             tried += len(probes)
             for p in probes:
-                if families_ext._viol(p) and not any(t.startswith("known-") for t in p["tags"]):
+                if families_ext._viol(p) and relevant(p, a.prop) and not any(t.startswith("known-") for t in p["tags"]):
                     failing.append({"id": p["id"], "call": p["call"], "inputs": p["inputs"], "outcome": p["outcome"], "why": "outcome contradicts the property"})
         print(json.dumps({"families": a.sweep.split(","), "tried": tried, "failing_count": len(failing), "failing_inputs": failing[:400]}))
         return 0
@@ -206,7 +218,7 @@ def main():
             return 0
         tried += len(probes)
         for p in probes:
-            if pred(p):
+            if pred(p) and relevant(p, a.prop):
                 failing.append({"id": p["id"], "call": p["call"], "inputs": p["inputs"], "outcome": p["outcome"], "why": desc})
     print(json.dumps({"families": fams, "tried": tried, "failing_count": len(failing), "failing_inputs": failing[:12]}))
     return 0
